@@ -98,7 +98,7 @@ def roundtrip(case, failures, labels):
     labels.append(f"fmt-{fmt}")
     net0 = c07.read_network(f)
     if any(r.reaction_type is None for r in net0.reaction_list):
-        return False  # Leeds codes outside the table have no type to serialise (outside the domain)
+        labels.append("untyped-reaction")  # (Leeds 15-19 before the fix c248e8a): the write below must still work
     edit = f.get("edit", "none")
     if edit != "none":
         labels.append(f"edited-{edit}")
@@ -181,7 +181,10 @@ def roundtrip(case, failures, labels):
 def render_exported(payload):
     from ..checks import c13
 
-    return c13.render_config_route(payload)
+    try:
+        return c13.render_config_route(payload)
+    except Exception as e:  # naunet's render command refused the exported project (runs in the fresh process)
+        return {"status": -1, "files": {}, "err": f"{type(e).__name__}: {e}"[:300], "raised": type(e).__name__}
 
 
 def export_clause(case, failures, labels):
@@ -202,18 +205,24 @@ def export_clause(case, failures, labels):
             direct = R.render_rates(net, d / "direct", backends=(("cvode", "dense", "cpu"),))["dense"]
         except Exception:
             return False  # the direct rendering itself is refused: nothing to compare
+        N.reset_naunet_state()
+        net = c05.build_file_network(fmt, lrs, case.get("variant", {}), extra)
         try:
-            N.reset_naunet_state()
-            net = c05.build_file_network(fmt, lrs, case.get("variant", {}), extra)
             net.export("vtexp", solver="cvode", method="dense", device="cpu", prefix=str(d), overwrite=True)
-            res = call("vtlib.checks.c18", "render_exported", {"dir": str(d / "vtexp"), "files": []})
-            if res["status"] != 0:
-                labels.append("re-render-refused")
-                return True
-            again = Project(d / "vtexp", "cvode", "dense", "cpu")
         except Exception as e:
-            labels.append(f"export-or-rerender-raised-{type(e).__name__}")
+            # the direct rendering of this network worked, so it is a network naunet supports: "writing any network"
+            # must not crash (a refusal is only acceptable at re-rendering time, where the law would be lost)
+            import traceback
+
+            tb = traceback.extract_tb(e.__traceback__)
+            where = next((f"{fr.filename.split('/')[-1]}:{fr.name}" for fr in reversed(tb) if "/naunet/" in fr.filename), "?")
+            failures.append((f"export/raises/{type(e).__name__}@{where}", f"{fmt}: Network.export() of a network that renders directly raised {type(e).__name__}: {e}"))
+            return True
+        res = call("vtlib.checks.c18", "render_exported", {"dir": str(d / "vtexp"), "files": []})
+        if res["status"] != 0:
+            labels.append("re-render-refused" + (f"-{res['raised']}" if res.get("raised") else ""))
             return True  # refused with an error: allowed by the property
+        again = Project(d / "vtexp", "cvode", "dense", "cpu")
         if again.nreac != direct.nreac:
             failures.append(("export/reaction-count", f"{fmt}: {direct.nreac} reactions rendered directly, {again.nreac} after export"))
             return True
